@@ -482,11 +482,13 @@ class SpooledStringIO(SpooledIOBase):
         if not self._rolled:
             tmp = EncodedFile(TemporaryFile(dir=self._dir),
                               data_encoding='utf-8')
-            pos = self.buffer.tell()
+            # NB: the byte position of the buffer includes whatever
+            # the decoder has read ahead, so go by codepoints
+            pos = self.tell()
             tmp.write(self.buffer.getvalue())
-            tmp.seek(pos)
             self.buffer.close()
             self._buffer = tmp
+            self.seek(pos)
 
     def tell(self):
         """Return the codepoint position"""
